@@ -325,3 +325,70 @@ def targets():
     # text that is stored (C14) -- both are what "the same name denotes the same element" rests on outside the connection classes
     from . import c12, c14
     return [target_elements_recursive(), target_identifiers(), c12.target_extract_parameters(), c14.target_set_label()]
+
+
+def target_names():
+    """Element.get_name, Connection.get_element_name, Circuit.get_element_name: the display name is '<symbol>_<label>' for a
+    labelled element and '<symbol>_<per-type identifier>' otherwise, the identifier taken from the map that was passed or from
+    generate_element_identifiers(running=False) of this very connection; an element that is not part of the connection, or not in
+    the map, is refused (ValueError); the circuit delegates to its top-level connection with both arguments."""
+    import z3 as _z3
+    from pyvc import overload as O
+
+    def run(sess):
+        ns = {}
+        O.load("circuit/base", ["Element.get_name"], ns)
+        for label, want in (("", "Sy"), ("ct", "Sy_ct"), ("a_b", "Sy_a_b")):
+            me = type("E", (), {"_label": label, "get_symbol": lambda s: "Sy"})()
+            sess.check("post", [], _z3.BoolVal(ns["get_name"](me) == want), 0, label=f"Element.get_name[label={label!r}] == {want!r}")
+        ns = {}
+        O.load("circuit/base", ["Connection.get_element_name"], ns)
+        fn = ns["get_element_name"]
+
+        class El:
+            def __init__(self, symbol, label):
+                self.symbol, self.label = symbol, label
+
+            def get_name(self):
+                return self.symbol if self.label == "" else f"{self.symbol}_{self.label}"
+
+            def get_symbol(self):
+                return self.symbol
+        a, b, stranger = El("R", ""), El("R", "x_1"), El("C", "")
+        asked = []
+
+        class Con:
+            def __contains__(self, e):
+                return e in (a, b)
+
+            def generate_element_identifiers(self, running):
+                asked.append(running)
+                return {a: 2, b: 1}
+        con = Con()
+        sess.check("post", [], _z3.BoolVal(fn(con, a) == "R_2" and asked == [False]), 0, label="unlabelled element, no map given: '<symbol>_<id>' from generate_element_identifiers(running=False)")
+        asked.clear()
+        sess.check("post", [], _z3.BoolVal(fn(con, a, identifiers={a: 7, b: 8}) == "R_7" and asked == []), 0, label="unlabelled element, map given: the id comes from the map that was passed")
+        sess.check("post", [], _z3.BoolVal(fn(con, b, identifiers={a: 7, b: 8}) == "R_x_1" and fn(con, b) == "R_x_1"), 0, label="labelled element: '<symbol>_<label>' whatever the identifiers")
+        for who, kw, why in ((stranger, {}, "not contained"), (a, {"identifiers": {b: 1}}, "missing from the map")):
+            refused = False
+            try:
+                fn(con, who, **kw)
+            except ValueError:
+                refused = True
+            sess.check("post", [], _z3.BoolVal(refused), 0, label=f"an element {why} is refused with ValueError")
+        ns = {}
+        O.load("circuit/circuit", ["Circuit.get_element_name"], ns)
+        got = []
+        top = type("Top", (), {"get_element_name": lambda s, element=None, identifiers=None: got.append((element, identifiers)) or "NAME"})()
+        cir = type("C", (), {"_elements": top})()
+        ids = {a: 3}
+        sess.check("post", [], _z3.BoolVal(ns["get_element_name"](cir, a, ids) == "NAME" and got == [(a, ids)]), 0, label="Circuit.get_element_name delegates to the top-level connection with both arguments")
+    return ("circuit/base:Element.get_name / Connection.get_element_name / Circuit.get_element_name", "circuit/base", "Connection.get_element_name", run)
+
+
+_targets_c16_core = targets
+
+
+def targets():      # noqa: F811
+    from . import c12
+    return _targets_c16_core() + [target_names(), c12.target_fit_identifiers()]
